@@ -16,6 +16,8 @@ CONSTANTS
  DevNoAtomResname = FALSE
  DevOrderedPairs = TRUE
  DevGateOnce = FALSE
+ DevGateBuildOnly = FALSE
+ DevMissingCache = FALSE
  DevDegree = FALSE
 INVARIANT MissingIsExpected
 CHECK_DEADLOCK FALSE
